@@ -33,17 +33,33 @@ type cfg struct {
 	MaxBuf    int
 	GlobalBuf int
 	Eager     bool // wait for indexing after every commit
+	Multi     bool // multi-indexing store with two prefixed indexes ("a…" and "b…") instead of the default index
 }
 
 func (cf cfg) String() string {
-	return fmt.Sprintf("bulk=%d adaptive=%v flushThld=%d node=%d cache=%d maxBuf=%d globalBuf=%d eager=%v", cf.Bulk, cf.Adaptive, cf.FlushThld, cf.NodeSize, cf.Cache, cf.MaxBuf, cf.GlobalBuf, cf.Eager)
+	return fmt.Sprintf("bulk=%d adaptive=%v flushThld=%d node=%d cache=%d maxBuf=%d globalBuf=%d eager=%v multi=%v", cf.Bulk, cf.Adaptive, cf.FlushThld, cf.NodeSize, cf.Cache, cf.MaxBuf, cf.GlobalBuf, cf.Eager, cf.Multi)
 }
 
 func opts(cf cfg) *store.Options {
 	io := store.DefaultIndexOptions().WithFlushBufferSize(4096).WithCacheSize(cf.Cache).WithBulkPreparationTimeout(time.Hour).
 		WithMaxBulkSize(cf.Bulk).WithAdaptiveBulkSize(cf.Adaptive).WithFlushThld(cf.FlushThld).WithSyncThld(1 << 20).WithMaxNodeSize(cf.NodeSize).
 		WithMaxBufferedDataSize(cf.MaxBuf).WithMaxGlobalBufferedDataSize(cf.GlobalBuf).WithRenewSnapRootAfter(0).WithCompactionThld(1)
-	return storeh.SmallOptions().WithMaxKeyLen(48).WithIndexOptions(io)
+	return storeh.SmallOptions().WithMaxKeyLen(48).WithMaxTxEntries(8).WithIndexOptions(io).WithMultiIndexing(cf.Multi)
+}
+
+func openStore(dir string, cf cfg) (*store.ImmuStore, error) {
+	st, err := store.Open(dir, opts(cf))
+	if err != nil {
+		return nil, err
+	}
+	if cf.Multi {
+		for _, p := range []string{"a", "b"} {
+			if err := st.InitIndexing(&store.IndexSpec{SourcePrefix: []byte(p), TargetPrefix: []byte(p)}); err != nil {
+				return nil, fmt.Errorf("InitIndexing(%s): %w", p, err)
+			}
+		}
+	}
+	return st, nil
 }
 
 var longKey = strings.Repeat("K", 48)
@@ -67,15 +83,17 @@ type ent struct {
 }
 
 var opNames = []string{"set(a,x)", "set(a,y)", "set(ab,x)", "set(b,x)", "set3(a,ab,b=m)", "delete(a)", "delete(ab)", "set(b,expirable)", "clock+2h",
-	"set(ab,non-indexable)", "set(a,empty)", "flush(0)", "flush(100,sync)", "compact", "reopen", "set(long-key,x)"}
+	"set(ab,non-indexable)", "set(a,empty)", "flush(0)", "flush(100,sync)", "compact", "reopen", "set(long-key,x)", "fill(a1..a4,b1..b4)", "fill(a5..a8,b5..b8)"}
 
 var writes = map[int][]ent{
 	0: {{k: "a", v: "x"}}, 1: {{k: "a", v: "y"}}, 2: {{k: "ab", v: "x"}}, 3: {{k: "b", v: "x"}},
 	4: {{k: "a", v: "m"}, {k: "ab", v: "m"}, {k: "b", v: "m"}}, 5: {{k: "a", del: true}}, 6: {{k: "ab", del: true}},
 	7: {{k: "b", v: "e", exp: true}}, 9: {{k: "ab", v: "n", nonIdx: true}}, 10: {{k: "a", v: ""}}, 15: {{k: longKey, v: "x"}},
+	17: {{k: "a5", v: "g"}, {k: "a6", v: "g"}, {k: "a7", v: "g"}, {k: "a8", v: "g"}, {k: "b5", v: "g"}, {k: "b6", v: "g"}, {k: "b7", v: "g"}, {k: "b8", v: "g"}},
+	16: {{k: "a1", v: "f"}, {k: "a2", v: "f"}, {k: "a3", v: "f"}, {k: "a4", v: "f"}, {k: "b1", v: "f"}, {k: "b2", v: "f"}, {k: "b3", v: "f"}, {k: "b4", v: "f"}},
 }
 
-var probeKeys = []string{"a", "ab", "abc", "b", longKey}
+var probeKeys = []string{"a", "ab", "abc", "a1", "a8", "b", "b4", "b5", longKey}
 
 func names(path []int) []string {
 	var s []string
@@ -166,6 +184,8 @@ func init() {
 		}
 	}
 }
+
+var multiMode bool // readers of a multi-index store go through the snapshot of index "a" and see only its keys
 
 func sweepModel(m *model) string {
 	var b strings.Builder
@@ -263,7 +283,7 @@ func sweepModel(m *model) string {
 		}
 		skipped := 0
 		for _, k := range order {
-			if !strings.HasPrefix(k, s.prefix) {
+			if !strings.HasPrefix(k, s.prefix) || (multiMode && !strings.HasPrefix(k, "a")) {
 				continue
 			}
 			if !s.desc {
@@ -339,7 +359,11 @@ func sweepImpl(st *store.ImmuStore, n uint64) string {
 			fmt.Fprintf(&b, "gp(%s)=%s:%s;", p, k, renderRef(vr))
 		}
 	}
-	snap, err := st.SnapshotMustIncludeTxID(ctx, nil, n)
+	var snapPrefix []byte
+	if multiMode {
+		snapPrefix = []byte("a")
+	}
+	snap, err := st.SnapshotMustIncludeTxID(ctx, snapPrefix, n)
 	if err != nil {
 		return b.String() + "SNAPSHOT-ERR:" + err.Error()
 	}
@@ -409,8 +433,9 @@ func run(cf cfg, path []int, depth int, dir string) (string, bool) {
 		}
 		stop = true
 	}
+	multiMode = cf.Multi
 	e := vsched.Run(nil, vsched.Options{MaxSteps: 2000000}, func() {
-		st, err := store.Open(dir, opts(cf))
+		st, err := openStore(dir, cf)
 		if err != nil {
 			fail("open", err.Error())
 			return
@@ -419,6 +444,10 @@ func run(cf cfg, path []int, depth int, dir string) (string, bool) {
 		ctx := context.Background()
 		for k := 0; k < len(path) && !stop; k++ {
 			op := path[k]
+			if cf.Multi && op == 15 {
+				stop = true // the long key is covered by no index of the multi-index configuration: not applicable
+				return
+			}
 			if ws, ok := writes[op]; ok {
 				tx, err := st.NewWriteOnlyTx(ctx)
 				if err != nil {
@@ -487,7 +516,7 @@ func run(cf cfg, path []int, depth int, dir string) (string, bool) {
 					fail("close", err.Error())
 					break
 				}
-				st, err = store.Open(dir, opts(cf))
+				st, err = openStore(dir, cf)
 				if err != nil {
 					fail("reopen", err.Error())
 				}
@@ -523,6 +552,9 @@ func run(cf cfg, path []int, depth int, dir string) (string, bool) {
 		c.Violate(lib.Violation{Sig: fmt.Sprintf("%s ops=%v cfg={%s}", sig, names(path), cf), Detail: det, Replay: map[string]any{"cfg": cf, "path": path}})
 		return "", true
 	}
+	if stop {
+		return "", true // not applicable in this configuration
+	}
 	if len(path) == depth {
 		c.Sample(map[string]any{"cfg": cf.String(), "ops": names(path)})
 	}
@@ -536,15 +568,17 @@ func main() {
 	c.Assume("single default index; prefixed/mapped indexes are exercised through the SQL checks C11/C12")
 	small := 430
 	cfgs := []cfg{
-		{1, false, 1 << 20, small, 64, 1 << 20, 1 << 20, false},
-		{4, false, 1 << 20, small, 64, 1 << 20, 1 << 20, false},
-		{2, true, 1, small, 1, 256, 1 << 20, false},
-		{1, false, 3, 4096, 64, 512, 512, true},
+		// cache sizes are weights in bytes: 1 = nothing is ever cached, 900 = about two nodes, 1<<20 = everything
+		{1, false, 1 << 20, small, 1 << 20, 1 << 20, 1 << 20, false, false},
+		{4, false, 1 << 20, small, 1 << 20, 1 << 20, 1 << 20, false, false},
+		{2, true, 1, small, 900, 256, 1 << 20, false, false},
+		{1, false, 3, 4096, 1, 512, 512, true, false},
+		{2, false, 1, small, 1 << 20, 1 << 20, 1 << 20, true, true}, // eager: the trees are persisted before a reopen, so they are loaded lazily afterwards
 	}
 	maxDepth := 4
 	if c.Thorough() {
 		maxDepth = 5
-		cfgs = append(cfgs, cfg{4, true, 3, small, 1, 256, 512, false}, cfg{2, false, 1, small, 64, 1 << 20, 1 << 20, true})
+		cfgs = append(cfgs, cfg{4, true, 3, small, 1, 256, 512, false, false}, cfg{2, false, 1, small, 900, 1 << 20, 1 << 20, true, false}, cfg{1, false, 3, small, 900, 1 << 20, 1 << 20, false, true})
 	}
 	if c.ReplayPath != "" {
 		var r struct {
@@ -593,4 +627,4 @@ func main() {
 	c.Finish(rule, !c.Expired())
 }
 
-const rule = "every sequence over the 16-operation alphabet (sets incl. overwrites, multi-key tx, logical deletes, expirable entry + clock advance, non-indexable entry, empty value, max-length key, flush, cleanup flush, compaction, reopen) up to the depth reported per index configuration; then WaitForIndexingUpto and a sweep of Get, GetBetween (all tx windows), History (offsets/limits/directions), GetWithPrefix and the key-reader grid (seek/end/prefix/inclusive/direction/offset/filters) compared with a reference model replayed from the commits"
+const rule = "every sequence over the 18-operation alphabet (sets incl. overwrites, multi-key tx, logical deletes, expirable entry + clock advance, non-indexable entry, empty value, max-length key, two 8-key fill transactions, flush, cleanup flush, compaction, reopen) up to the depth reported per index configuration; then WaitForIndexingUpto and a sweep of Get, GetBetween (all tx windows), History (offsets/limits/directions), GetWithPrefix and the key-reader grid (seek/end/prefix/inclusive/direction/offset/filters) compared with a reference model replayed from the commits"
